@@ -94,6 +94,28 @@ def handleGate (j : Json) : Json :=
   let s := (j.getObjValAs? String "assembled").toOption.getD ""
   Json.mkObj [("released", Json.str (String.ofList (Gly.Api.gate (b "tree_only") (b "full") (b "tree_full") s.toList)))]
 
+partial def decodeNode (j : Json) : Asm.Node :=
+  let raw := (j.getObjValAs? String "raw").toOption.getD ""
+  let nr := (j.getObjValAs? Nat "nrings").toOption.getD 1
+  let kids := match j.getObjVal? "kids" with
+    | .ok (Json.arr a) => a.toList.map decodeNode
+    | _ => []
+  .mk raw.toList nr kids
+
+partial def nodeSize : Asm.Node → Nat
+  | .mk _ _ kids => 1 + (kids.map nodeSize).sum
+
+def handleMerge (j : Json) : Json :=
+  match j.getObjVal? "tree" with
+  | .ok t =>
+    let node := decodeNode t
+    let fuel := 2 * nodeSize node + 4
+    let ok := Asm.labelsOK fuel node 0
+    match Asm.mergeInt fuel node 0 with
+    | .ok s => Json.mkObj [("ok", Json.bool true), ("smiles", Json.str (String.ofList s)), ("labels_ok", Json.bool ok)]
+    | .error e => Json.mkObj [("ok", Json.bool false), ("error", Json.str (toString (repr e))), ("labels_ok", Json.bool ok)]
+  | _ => Json.mkObj [("error", "no tree")]
+
 def handle (line : String) : Json :=
   match Json.parse line with
   | .error e => Json.mkObj [("error", Json.str e)]
@@ -108,6 +130,7 @@ def handle (line : String) : Json :=
     | some "convert" => handleConvert j
     | some "cli" => handleCli j
     | some "gate" => handleGate j
+    | some "merge" => handleMerge j
     | some "ping" => Json.mkObj [("pong", Json.bool true)]
     | _ => Json.mkObj [("error", "unknown op")]
 
